@@ -2,6 +2,8 @@ import OW.Sim.H5
 import Mathlib.Tactic.Ring
 import Mathlib.Tactic.Linarith
 import Mathlib.Data.List.Range
+import Mathlib.Data.List.Nodup
+import Mathlib.Tactic.Push
 /-!
 Helper lemmas for the C08 theorems about the abstract HDF5 file (`OW/Sim/H5.lean`): row-major enumeration,
 sequential stores, path bookkeeping.
@@ -310,5 +312,802 @@ theorem createDs_ok (dims : List Nat) : ∀ (n : Nat) (comps : List String), com
             rcases List.mem_append.mp hm with hm | hm
             · exact wf p s v hm
             · simp at hm
+
+/-! ### shapes, `openOrCreateDataset`, whole-dataset transfers -/
+
+theorem toUint_nonneg {x : Int} (h : 0 ≤ x) : toUint x = x.toNat := by simp [toUint, h]
+
+theorem uintsToInts_intsToUints {l : Idx} (h : ∀ x ∈ l, 0 ≤ x) : uintsToInts (intsToUints l) = l := by
+  induction l with
+  | nil => rfl
+  | cons x xs ih =>
+    have hx : 0 ≤ x := h x (by simp)
+    simp only [uintsToInts, intsToUints, List.map_cons, List.map_map] at ih ⊢
+    rw [ih (fun y hy => h y (List.mem_cons_of_mem _ hy))]
+    simp [toUint_nonneg hx, hx]
+
+theorem prodN_intsToUints {l : Idx} (h : ∀ x ∈ l, 0 ≤ x) : (prodN (intsToUints l) : Int) = product l := by
+  induction l with
+  | nil => simp [intsToUints, prodN, product]
+  | cons x xs ih =>
+    have hx : 0 ≤ x := h x (by simp)
+    simp only [intsToUints, List.map_cons, prodN, product, Nat.cast_mul] at ih ⊢
+    rw [ih (fun y hy => h y (List.mem_cons_of_mem _ hy)), toUint_nonneg hx, Int.toNat_of_nonneg hx]
+
+theorem prodN_of_uintsToInts {s : List Nat} {l : Idx} (h : uintsToInts s = l) : (prodN s : Int) = product l := by
+  subst h
+  induction s with
+  | nil => simp [uintsToInts, prodN, product]
+  | cons x xs ih => simp only [uintsToInts, List.map_cons, prodN, product, Nat.cast_mul] at ih ⊢; rw [ih]; rfl
+
+/-- what a successful `openOrCreateDataset` establishes -/
+theorem openOrCreate_ok {t t1 : Tree} {path : String} {shape : Idx} {p : Path}
+    (h : openOrCreate t path shape = (t1, .ok p)) (hpos : ∀ x ∈ shape, 0 ≤ x) :
+    p = splitPath path ∧ p ≠ [] ∧ (∃ s v, find t1 p = some (.ds s v) ∧ uintsToInts s = shape) ∧
+      (∀ r, find t r ≠ none → find t1 r = find t r) ∧ (WF t → WF t1) := by
+  unfold openOrCreate at h
+  split at h
+  · rename_i p' s v hod
+    split at h
+    · rename_i hs
+      simp only [Prod.mk.injEq, Res.ok.injEq] at h
+      obtain ⟨rfl, rfl⟩ := h
+      obtain ⟨h1, h2, h3⟩ := openDataset_eq.mp hod
+      exact ⟨h1, h2, ⟨s, v, h3, hs⟩, fun _ _ => rfl, id⟩
+    · simp at h
+  · obtain ⟨h1, h2, h3, h4, h5⟩ := createDs_ok _ _ _ (Nat.le_refl _) _ _ _ _ h
+    have hp : p = splitPath path := by rw [h1, List.nil_append]; rfl
+    refine ⟨hp, ?_, ⟨_, _, h3, uintsToInts_intsToUints hpos⟩, h4, h5⟩
+    rw [h1]; simpa using h2
+
+theorem h5read_all (v : List Int) (s : List Nat) (hv : v.length = prodN s) :
+    h5read v s .all (prodN s) (zeroBuf false (prodN s)) = .ok v := by
+  simp only [h5read, npoints, selValid, linear_all, zeroBuf]
+  simp only [ne_eq, not_true_eq_false, if_false, Bool.not_eq_true, Bool.true_eq_false]
+  rw [← hv, map_getD_range]
+  simp
+
+theorem load_full {t : Tree} {path : String} {p : Path} {s : List Nat} {v : List Int}
+    (hod : openDataset t path = .ok (p, s, v)) (hv : v.length = prodN s) :
+    load false (some t) path none = .ok (uintsToInts s, v) := by
+  simp only [load, hod, h5read_all v s hv, unpackBuf]
+  simp
+
+
+/-! ### selections -/
+
+theorem walkIdx_eq (lim st : Nat) : ∀ (c fuel x : Nat), (∀ k : Nat, k < c ↔ x + k * st < lim) → c ≤ fuel →
+    walkIdx lim st fuel x = (List.range c).map (fun k => x + k * st) := by
+  intro c
+  induction c with
+  | zero =>
+    intro fuel x hk _
+    have : ¬ x < lim := by have := hk 0; simp at this; omega
+    cases fuel <;> simp [walkIdx, this]
+  | succ c ih =>
+    intro fuel x hk hf
+    obtain ⟨f, rfl⟩ : ∃ f, fuel = f + 1 := ⟨fuel - 1, by omega⟩
+    have h0 : x < lim := by have := (hk 0).mp (by omega); simpa using this
+    have := ih f (x + st) (fun k => by
+      have := hk (k + 1)
+      constructor
+      · intro h; have := this.mp (by omega); rw [Nat.add_mul] at this; omega
+      · intro h; have := this.mpr (by rw [Nat.add_mul]; omega); omega) (by omega)
+    simp only [walkIdx, h0, if_true, this, List.range_succ_eq_map, List.map_cons, List.map_map]
+    simp only [Nat.zero_mul, Nat.add_zero, List.cons.injEq, true_and]
+    apply List.map_congr_left
+    intro k _
+    simp only [Function.comp, Nat.succ_eq_add_one, Nat.add_mul]
+    omega
+
+theorem sliceSize_spec (start stop step extent : Int) (hs : 1 ≤ step) :
+    ∃ n : Int, sliceSize [start, stop, step] extent = .ok n ∧ 0 ≤ n ∧
+      ∀ k : Int, 0 ≤ k → (k < n ↔ start + k * step < min stop extent) := by
+  have hs0 : step ≠ 0 := by omega
+  have hpos : (0 : Int) < step := by omega
+  set d : Int := maxInt 0 (minInt extent stop - minInt extent start) with hd
+  have hd0 : 0 ≤ d := by
+    simp only [hd, maxInt]; split <;> omega
+  refine ⟨(d + step - 1) / step, ?_, ?_, ?_⟩
+  · simp only [sliceSize, hs0, if_false]
+    rw [Int.tdiv_eq_ediv_of_nonneg (by omega)]
+  · exact Int.ediv_nonneg (by omega) (by omega)
+  · intro k hk
+    have key : k < (d + step - 1) / step ↔ k * step < d := by
+      rw [Int.lt_iff_add_one_le, Int.le_ediv_iff_mul_le hpos]
+      constructor <;> intro h <;> nlinarith
+    rw [key]
+    have hks : 0 ≤ k * step := Int.mul_nonneg hk (by omega)
+    generalize k * step = q at hks ⊢
+    simp only [hd, maxInt, minInt]
+    rcases le_total stop extent with h1 | h1 <;> simp only [min_def] <;> split_ifs <;> omega
+
+/-- `sliceSize` in natural numbers, for a non-negative start and a positive step -/
+theorem sliceSize_nat (a b st : Int) (e : Nat) (ha : 0 ≤ a) (hs : 1 ≤ st) :
+    ∃ c : Nat, sliceSize [a, b, st] (e : Int) = .ok (c : Int) ∧
+      ∀ k : Nat, k < c ↔ a.toNat + k * st.toNat < min b.toNat e := by
+  obtain ⟨n, h1, h2, h3⟩ := sliceSize_spec a b st e hs
+  refine ⟨n.toNat, by rw [h1, Int.toNat_of_nonneg h2], ?_⟩
+  intro k
+  have := h3 (k : Int) (by omega)
+  have hst : ((st.toNat : Nat) : Int) = st := Int.toNat_of_nonneg (by omega)
+  have hat : ((a.toNat : Nat) : Int) = a := Int.toNat_of_nonneg ha
+  constructor
+  · intro hk
+    have h4 := this.mp (by omega)
+    have : ((a.toNat + k * st.toNat : Nat) : Int) < ((min b.toNat e : Nat) : Int) := by
+      push_cast
+      rw [hst, hat]
+      rcases le_total b 0 with hb | hb
+      · simp only [min_def] at h4 ⊢; split_ifs at h4 ⊢ <;> omega
+      · rw [Int.toNat_of_nonneg hb]; exact h4
+    exact_mod_cast this
+  · intro hk
+    have h5 : ((a.toNat + k * st.toNat : Nat) : Int) < ((min b.toNat e : Nat) : Int) := by exact_mod_cast hk
+    push_cast at h5
+    rw [hst, hat] at h5
+    have : (k : Int) < n := this.mpr (by
+      rcases le_total b 0 with hb | hb
+      · have : b.toNat = 0 := Int.toNat_eq_zero.mpr hb
+        rw [this] at h5; simp only [min_def] at h5 ⊢; split_ifs at h5 ⊢ <;> omega
+      · rw [Int.toNat_of_nonneg hb] at h5; exact h5)
+    omega
+
+/-- (offset, stride, count) that `makeHyperslab` must produce for one dimension -/
+def triple (e : Nat) (x : SelDim) : Nat × Nat × Nat :=
+  match x with
+  | none => (0, 1, e)
+  | some [a, _, st] => (a.toNat, st.toNat, (specIdx e x).length)
+  | some _ => (0, 1, 0)
+
+theorem dimCoords_block1 (o st c : Nat) : dimCoords o st c 1 = (List.range c).map (fun k => o + k * st) := by
+  simp only [dimCoords, List.range_one, List.map_cons, List.map_nil, Nat.add_zero]
+  induction (List.range c) with
+  | nil => rfl
+  | cons x xs ih => simp [List.flatMap_cons, ih]
+
+theorem specIdx_some {a b st : Int} {e : Nat} (ha : 0 ≤ a) (hs : 1 ≤ st) :
+    ∃ c : Nat, sliceSize [a, b, st] (e : Int) = .ok (c : Int) ∧
+      specIdx e (some [a, b, st]) = (List.range c).map (fun k => a.toNat + k * st.toNat) ∧
+      (c = 0 ∨ a.toNat + (c - 1) * st.toNat < e) := by
+  obtain ⟨c, h1, h2⟩ := sliceSize_nat a b st e ha hs
+  have hst : 1 ≤ st.toNat := by omega
+  have hce : c ≤ e := by
+    rcases Nat.eq_zero_or_pos c with h | h
+    · omega
+    · have := (h2 (c - 1)).mp (by omega)
+      have h3 : (c - 1) * 1 ≤ (c - 1) * st.toNat := Nat.mul_le_mul_left _ hst
+      have : min b.toNat e ≤ e := Nat.min_le_right _ _
+      omega
+  refine ⟨c, h1, ?_, ?_⟩
+  · exact walkIdx_eq _ _ c e _ h2 hce
+  · rcases Nat.eq_zero_or_pos c with h | h
+    · exact Or.inl h
+    · right
+      have := (h2 (c - 1)).mp (by omega)
+      have : min b.toNat e ≤ e := Nat.min_le_right _ _
+      omega
+
+theorem triple_spec (e : Nat) (x : SelDim) (hx : SelDimOK x) :
+    1 ≤ (triple e x).2.1 ∧
+    dimCoords (triple e x).1 (triple e x).2.1 (triple e x).2.2 1 = specIdx e x ∧
+    (triple e x).2.2 = (specIdx e x).length ∧
+    ((triple e x).2.2 = 0 ∨ dimWithin (triple e x).1 (triple e x).2.1 (triple e x).2.2 1 e = true) ∧
+    (∀ (dims : Idx) (i : Nat), dims[i]? = some (e : Int) → slabDim dims i x = .ok (triple e x)) ∧
+    (match x with
+      | none => (pure (e : Int) : R Int)
+      | some sl => sliceSize sl (e : Int)) = .ok (((triple e x).2.2 : Nat) : Int) := by
+  match x, hx with
+  | none, _ =>
+    refine ⟨by simp [triple], ?_, by simp [triple, specIdx], ?_, ?_, by simp [triple, pure, Except.pure]⟩
+    · simp [triple, specIdx, dimCoords_block1]
+    · simp only [triple, dimWithin]
+      rcases Nat.eq_zero_or_pos e with h | h
+      · exact Or.inl h
+      · right; simp; omega
+    · intro dims i hd
+      simp [slabDim, hd, triple, toUint]
+  | some [a, b, st], ⟨ha, hs⟩ =>
+    obtain ⟨c, h1, h2, h3⟩ := specIdx_some (b := b) (e := e) ha hs
+    have hlen : (specIdx e (some [a, b, st])).length = c := by rw [h2]; simp
+    have ht : triple e (some [a, b, st]) = (a.toNat, st.toNat, c) := by simp only [triple, hlen]
+    rw [ht]
+    refine ⟨by simp; omega, ?_, hlen.symm, ?_, ?_, h1⟩
+    · simp only [dimCoords_block1, h2]
+    · rcases h3 with h3 | h3
+      · exact Or.inl h3
+      · right; simp only [dimWithin]; simp; omega
+    · intro dims i hd
+      have hst : 0 ≤ st := by omega
+      simp [slabDim, hd, h1, bind, Except.bind, pure, Except.pure, toUint, ha, hst]
+
+def trip (sel : Sel) (s : List Nat) : List (Nat × Nat × Nat) := List.zipWith (fun x e => triple e x) sel s
+
+theorem slabDims_eq : ∀ (sel : Sel) (s : List Nat) (pre : Idx), sel.length = s.length → (∀ x ∈ sel, SelDimOK x) →
+    slabDims (pre ++ uintsToInts s) pre.length sel = .ok (trip sel s) := by
+  intro sel
+  induction sel with
+  | nil => intro s pre hl _; cases s <;> simp_all [slabDims, trip]
+  | cons x xs ih =>
+    intro s pre hl hok
+    cases s with
+    | nil => simp at hl
+    | cons e es =>
+      have hd : (pre ++ uintsToInts (e :: es))[pre.length]? = some (e : Int) := by
+        simp [uintsToInts]
+      have h1 := (triple_spec e x (hok x (by simp))).2.2.2.2.1 _ _ hd
+      have h2 := ih es (pre ++ [(e : Int)]) (by simpa using hl) (fun y hy => hok y (List.mem_cons_of_mem _ hy))
+      have hpre : pre ++ [(e : Int)] ++ uintsToInts es = pre ++ uintsToInts (e :: es) := by
+        simp [uintsToInts]
+      rw [hpre] at h2
+      simp only [List.length_append, List.length_singleton] at h2
+      simp only [slabDims, h1, h2, bind, Except.bind, pure, Except.pure, trip, List.zipWith_cons_cons]
+
+theorem newShape_eq : ∀ (sel : Sel) (s : List Nat), sel.length = s.length → (∀ x ∈ sel, SelDimOK x) →
+    newShape sel (uintsToInts s) = .ok ((trip sel s).map (fun t => ((t.2.2 : Nat) : Int))) := by
+  intro sel
+  induction sel with
+  | nil => intro s hl _; cases s <;> simp_all [newShape, trip, uintsToInts]
+  | cons x xs ih =>
+    intro s hl hok
+    cases s with
+    | nil => simp at hl
+    | cons e es =>
+      have h1 := (triple_spec e x (hok x (by simp))).2.2.2.2.2
+      have h2 := ih es (by simpa using hl) (fun y hy => hok y (List.mem_cons_of_mem _ hy))
+      simp only [uintsToInts, List.map_cons] at h2 ⊢
+      cases x with
+      | none =>
+        simp only [pure, Except.pure, Except.ok.injEq] at h1
+        simp only [newShape, h2, bind, Except.bind, pure, Except.pure, trip, List.zipWith_cons_cons, List.map_cons]
+        rw [← h1]; rfl
+      | some sl =>
+        have h1' : sliceSize sl (Int.ofNat e) = .ok (((triple e (some sl)).2.2 : Nat) : Int) := h1
+        simp only [newShape, h1', h2, bind, Except.bind, pure, Except.pure, trip, List.zipWith_cons_cons, List.map_cons]
+
+theorem zip4_map {α : Type} (l : List α) (f1 f2 f3 f4 : α → Nat) :
+    zip4 (l.map f1) (l.map f2) (l.map f3) (l.map f4) = l.map (fun t => (f1 t, f2 t, f3 t, f4 t)) := by
+  induction l with
+  | nil => rfl
+  | cons a l ih => simp [zip4, ih]
+
+theorem trip_length {sel : Sel} {s : List Nat} (h : sel.length = s.length) : (trip sel s).length = s.length := by
+  simp [trip, h]
+
+theorem cartesian_of_nil_mem : ∀ (ls : List (List Nat)), [] ∈ ls → cartesian ls = [] := by
+  intro ls
+  induction ls with
+  | nil => intro h; simp at h
+  | cons l ls ih =>
+    intro h
+    rcases List.mem_cons.mp h with h | h
+    · subst h; simp [cartesian]
+    · simp [cartesian, ih h]
+
+theorem prodN_eq_zero : ∀ (l : List Nat), 0 ∈ l → prodN l = 0 := by
+  intro l
+  induction l with
+  | nil => intro h; simp at h
+  | cons x xs ih =>
+    intro h
+    rcases List.mem_cons.mp h with h | h
+    · subst h; simp [prodN]
+    · simp [prodN, ih h]
+
+theorem intsToUints_cast (l : List Nat) : intsToUints (l.map (fun c => ((c : Nat) : Int))) = l := by
+  induction l with
+  | nil => rfl
+  | cons x xs ih =>
+    simp only [intsToUints, List.map_cons, List.map_map] at ih ⊢
+    rw [ih]; simp [toUint]
+
+theorem product_cast (l : List Nat) : product (l.map (fun c => ((c : Nat) : Int))) = (prodN l : Int) := by
+  induction l with
+  | nil => rfl
+  | cons x xs ih => simp only [List.map_cons, product, prodN, ih]; push_cast; rfl
+
+theorem take_self {α} (l : List α) : l.take l.length = l := List.take_length
+
+theorem selIdx_eq_trip : ∀ (sel : Sel) (s : List Nat), sel.length = s.length → (∀ x ∈ sel, SelDimOK x) →
+    selIdx sel s = (trip sel s).map (fun t => dimCoords t.1 t.2.1 t.2.2 1) ∧
+    (trip sel s).map (·.2.2) = (selIdx sel s).map List.length ∧
+    (∀ t ∈ trip sel s, 1 ≤ t.2.1) ∧
+    ((∀ t ∈ trip sel s, t.2.2 ≠ 0) →
+      (List.zip ((trip sel s).map (fun t => (t.1, t.2.1, t.2.2, 1))) s).all
+        (fun (p : (Nat × Nat × Nat × Nat) × Nat) => dimWithin p.1.1 p.1.2.1 p.1.2.2.1 p.1.2.2.2 p.2) = true) := by
+  intro sel
+  induction sel with
+  | nil => intro s hl _; cases s <;> simp_all [selIdx, trip]
+  | cons x xs ih =>
+    intro s hl hok
+    cases s with
+    | nil => simp at hl
+    | cons e es =>
+      obtain ⟨h1, h2, h3, h4, -, -⟩ := triple_spec e x (hok x (by simp))
+      obtain ⟨i1, i2, i3, i4⟩ := ih es (by simpa using hl) (fun y hy => hok y (List.mem_cons_of_mem _ hy))
+      simp only [selIdx, trip, List.zipWith_cons_cons, List.map_cons] at i1 i2 i3 i4 ⊢
+      refine ⟨by rw [h2, i1], by rw [h3, i2], ?_, ?_⟩
+      · intro t ht
+        rcases List.mem_cons.mp ht with rfl | ht
+        · exact h1
+        · exact i3 t ht
+      · intro hnz
+        simp only [List.zip_cons_cons, List.all_cons, Bool.and_eq_true]
+        refine ⟨?_, i4 (fun t ht => hnz t (List.mem_cons_of_mem _ ht))⟩
+        rcases h4 with h4 | h4
+        · exact absurd h4 (hnz _ List.mem_cons_self)
+        · exact h4
+
+/-- `loadSubset` on a dataset `(s, v)` with a well-formed selection -/
+theorem loadSubset_spec (sel : Sel) (s : List Nat) (v : List Int) (hl : sel.length = s.length) (hne : sel ≠ [])
+    (hok : ∀ x ∈ sel, SelDimOK x) :
+    loadSubset false sel s v =
+      .ok ((selIdx sel s).map (fun l => ((l.length : Nat) : Int)),
+           (cartesian (selIdx sel s)).map (fun c => v.getD (ravelN c s) 0)) := by
+  obtain ⟨hidx, hcnt, hstr, hval⟩ := selIdx_eq_trip sel s hl hok
+  generalize hldef : trip sel s = l at hidx hcnt hstr hval
+  have hll : l.length = s.length := by rw [← hldef]; exact trip_length hl
+  have hlpos : l.length ≠ 0 := by
+    rw [hll, ← hl]; exact fun h => hne (List.length_eq_zero_iff.mp h)
+  -- makeHyperslab, SelectHyperslab, the new shape
+  have hmk : makeHyperslab sel (uintsToInts s) = .ok
+      { offset := l.map (·.1), stride := l.map (·.2.1), count := l.map (·.2.2), block := l.map (fun _ => 1) } := by
+    have := slabDims_eq sel s [] hl hok
+    simp only [List.nil_append, List.length_nil] at this
+    simp only [makeHyperslab, this, bind, Except.bind, pure, Except.pure, hldef]
+  have hns := newShape_eq sel s hl hok
+  rw [hldef] at hns
+  have hns' : l.map (fun t => ((t.2.2 : Nat) : Int)) = (l.map (fun t => t.2.2)).map (fun c => ((c : Nat) : Int)) := by
+    rw [List.map_map]; rfl
+  have hsel : selectHyperslab s .all (l.map (·.1)) (l.map (·.2.1)) (l.map (·.2.2)) (l.map (fun _ => 1)) =
+      .ok (if (l.map (·.2.2)).any (· == 0) = true then Selection.none
+           else .hyper (l.map (·.1)) (l.map (·.2.1)) (l.map (·.2.2)) (l.map (fun _ => 1))) := by
+    unfold selectHyperslab
+    have ht : ∀ (f : (Nat × Nat × Nat) → Nat), (l.map f).take l.length = l.map f := by
+      intro f; have := take_self (l.map f); simpa using this
+    have h1 : (l.map (·.2.1)).any (· == 0) = false := by
+      rw [List.any_eq_false]
+      intro x hx
+      obtain ⟨t, ht', rfl⟩ := List.mem_map.mp hx
+      have := hstr t ht'
+      simp; omega
+    have h2 : (zip4 (l.map (·.1)) (l.map (·.2.1)) (l.map (·.2.2)) (l.map (fun _ => 1))).any
+        (fun (_, s, c, b) => decide (c > 1) && decide (s < b)) = false := by
+      rw [zip4_map, List.any_eq_false]
+      intro x hx
+      obtain ⟨t, ht', rfl⟩ := List.mem_map.mp hx
+      have := hstr t ht'
+      simp; omega
+    have h3 : (l.map (fun _ => 1)).any (· == 0) = false := by
+      rw [List.any_eq_false]
+      intro x hx
+      obtain ⟨t, _, rfl⟩ := List.mem_map.mp hx
+      simp
+    simp only [List.length_map]
+    rw [if_neg hlpos, if_neg (by rw [hll]; simp), if_neg (by omega)]
+    simp only [ht, h1, h2, h3, Bool.false_eq_true, if_false, Bool.or_false]
+    split <;> rfl
+  unfold loadSubset
+  simp only [hmk, hsel, hns]
+  have hprod : product (l.map (fun t => ((t.2.2 : Nat) : Int))) = (prodN (l.map (·.2.2)) : Int) := by
+    rw [hns', product_cast]
+  have hnn : ¬ product (l.map (fun t => ((t.2.2 : Nat) : Int))) < 0 := by rw [hprod]; omega
+  simp only [hnn, if_false]
+  have hu : intsToUints (l.map (fun t => ((t.2.2 : Nat) : Int))) = l.map (·.2.2) := by
+    rw [hns', intsToUints_cast]
+  rw [hu, hprod, Int.toNat_natCast]
+  have hshape : l.map (fun t => ((t.2.2 : Nat) : Int)) = (selIdx sel s).map (fun l => ((l.length : Nat) : Int)) := by
+    rw [hns', hcnt, List.map_map]; rfl
+  by_cases hz : (l.map (·.2.2)).any (· == 0) = true
+  · -- some dimension selects nothing
+    simp only [hz, if_true]
+    have h0 : 0 ∈ l.map (·.2.2) := by
+      obtain ⟨x, hx, hx0⟩ := List.any_eq_true.mp hz
+      have : x = 0 := by simpa using hx0
+      rw [← this]; exact hx
+    have hp0 : prodN (l.map (·.2.2)) = 0 := prodN_eq_zero _ h0
+    have hnil : cartesian (selIdx sel s) = [] := by
+      apply cartesian_of_nil_mem
+      rw [hcnt] at h0
+      obtain ⟨x, hx, hx0⟩ := List.mem_map.mp h0
+      have : x = [] := List.length_eq_zero_iff.mp hx0
+      rw [← this]; exact hx
+    simp [h5read, npoints, selValid, linear, hp0, zeroBuf, unpackBuf, hnil, hshape]
+  · -- a proper hyperslab
+    simp only [hz, Bool.false_eq_true, if_false]
+    have hz' : ∀ t ∈ l, t.2.2 ≠ 0 := by
+      intro t ht h0
+      apply hz
+      rw [List.any_eq_true]
+      exact ⟨t.2.2, List.mem_map.mpr ⟨t, ht, rfl⟩, by simp [h0]⟩
+    have hnp : npoints s (.hyper (l.map (·.1)) (l.map (·.2.1)) (l.map (·.2.2)) (l.map (fun _ => 1))) =
+        prodN (l.map (·.2.2)) := by
+      simp only [npoints]
+      congr 1
+      rw [List.zip_map', List.map_map]
+      apply List.map_congr_left
+      intro t _
+      simp
+    have hvalid : selValid s (.hyper (l.map (·.1)) (l.map (·.2.1)) (l.map (·.2.2)) (l.map (fun _ => 1))) = true := by
+      simp only [selValid, zip4_map]
+      exact hval hz'
+    have hlin : linear s (.hyper (l.map (·.1)) (l.map (·.2.1)) (l.map (·.2.2)) (l.map (fun _ => 1))) =
+        (cartesian (selIdx sel s)).map (ravelN · s) := by
+      simp only [linear, selCoords, zip4_map, List.map_map, hidx]
+      rfl
+    simp only [h5read, hnp, ne_eq, not_true_eq_false, if_false, hvalid, Bool.not_eq_true, Bool.true_eq_false,
+      hlin, List.map_map, zeroBuf, unpackBuf, Bool.false_eq_true, List.drop_replicate, Nat.sub_self,
+      List.replicate_zero, List.append_nil, hshape]
+    rfl
+
+/-! ### blocks -/
+
+/-- per dimension, the coordinates of the block -/
+def blockCoords : List Nat → List Nat → List (List Nat)
+  | l :: ls, d :: ds => (List.range d).map (l + ·) :: blockCoords ls ds
+  | _, _ => []
+
+theorem cartesian_length (ls : List (List Nat)) : (cartesian ls).length = prodN (ls.map List.length) := by
+  induction ls with
+  | nil => rfl
+  | cons l ls ih =>
+    simp only [cartesian, List.map_cons, prodN, List.length_flatMap, List.length_map, ih]
+    induction l with
+    | nil => simp
+    | cons x xs ihx => simp [List.sum_cons, Nat.succ_mul, Nat.add_comm]
+
+theorem ravelN_lt : ∀ (c s : List Nat), CoordIn c s → ravelN c s < prodN s := by
+  intro c
+  induction c with
+  | nil => intro s h; cases s <;> simp_all [CoordIn, ravelN, prodN]
+  | cons x xs ih =>
+    intro s h
+    cases s with
+    | nil => simp [CoordIn] at h
+    | cons e es =>
+      obtain ⟨h1, h2⟩ := h
+      have := ih es h2
+      simp only [ravelN, prodN]
+      calc x * prodN es + ravelN xs es < x * prodN es + prodN es := by omega
+        _ = (x + 1) * prodN es := by ring
+        _ ≤ e * prodN es := Nat.mul_le_mul_right _ h1
+
+theorem ravelN_inj : ∀ (c c' s : List Nat), CoordIn c s → CoordIn c' s → ravelN c s = ravelN c' s → c = c' := by
+  intro c
+  induction c with
+  | nil =>
+    intro c' s h h' _
+    cases s with
+    | nil => cases c' <;> simp_all [CoordIn]
+    | cons e es => simp [CoordIn] at h
+  | cons x xs ih =>
+    intro c' s h h' heq
+    cases s with
+    | nil => simp [CoordIn] at h
+    | cons e es =>
+      cases c' with
+      | nil => simp [CoordIn] at h'
+      | cons y ys =>
+        obtain ⟨h1, h2⟩ := h
+        obtain ⟨h1', h2'⟩ := h'
+        simp only [ravelN] at heq
+        have b1 := ravelN_lt xs es h2
+        have b2 := ravelN_lt ys es h2'
+        have hxy : x = y := by
+          by_contra hne
+          rcases Nat.lt_or_gt_of_ne hne with hlt | hlt
+          · have : (x + 1) * prodN es ≤ y * prodN es := Nat.mul_le_mul_right _ hlt
+            rw [Nat.add_mul] at this; omega
+          · have : (y + 1) * prodN es ≤ x * prodN es := Nat.mul_le_mul_right _ hlt
+            rw [Nat.add_mul] at this; omega
+        subst hxy
+        have : ravelN xs es = ravelN ys es := by omega
+        rw [ih ys es h2 h2' this]
+
+theorem mem_cartesian : ∀ (ls : List (List Nat)) (c : List Nat),
+    c ∈ cartesian ls ↔ List.Forall₂ (fun x l => x ∈ l) c ls := by
+  intro ls
+  induction ls with
+  | nil => intro c; simp [cartesian]
+  | cons l ls ih =>
+    intro c
+    simp only [cartesian, List.mem_flatMap, List.mem_map]
+    constructor
+    · rintro ⟨x, hx, c', hc', rfl⟩
+      exact List.Forall₂.cons hx ((ih c').mp hc')
+    · intro h
+      cases h with
+      | cons hx hr => exact ⟨_, hx, _, (ih _).mpr hr, rfl⟩
+
+theorem nodup_cartesian : ∀ (ls : List (List Nat)), (∀ l ∈ ls, l.Nodup) → (cartesian ls).Nodup := by
+  intro ls
+  induction ls with
+  | nil => intro _; simp [cartesian]
+  | cons l ls ih =>
+    intro h
+    have hl : l.Nodup := h l (by simp)
+    have hr := ih (fun m hm => h m (List.mem_cons_of_mem _ hm))
+    simp only [cartesian]
+    rw [List.nodup_flatMap]
+    refine ⟨fun x _ => hr.map (fun a b hab => by simpa using hab), ?_⟩
+    apply List.Pairwise.imp_of_mem _ hl
+    intro a b _ _ hab
+    simp only [Function.onFun]
+    intro c hc1 hc2
+    obtain ⟨_, _, rfl⟩ := List.mem_map.mp hc1
+    obtain ⟨_, _, h2⟩ := List.mem_map.mp hc2
+    simp only [List.cons.injEq] at h2
+    exact hab h2.1.symm
+
+theorem flatMap_getElem?_uniform {α β : Type} (f : α → List β) (P : Nat) : ∀ (l : List α),
+    (∀ x ∈ l, (f x).length = P) → ∀ (i r : Nat) (hi : i < l.length), r < P →
+      (l.flatMap f)[i * P + r]? = (f l[i])[r]? := by
+  intro l
+  induction l with
+  | nil => intro _ i r hi; simp at hi
+  | cons x xs ih =>
+    intro hP i r hi hr
+    have hx : (f x).length = P := hP x (by simp)
+    simp only [List.flatMap_cons]
+    cases i with
+    | zero =>
+      simp only [Nat.zero_mul, Nat.zero_add, List.getElem_cons_zero]
+      rw [List.getElem?_append_left (by omega)]
+    | succ j =>
+      have : (j + 1) * P + r = (f x).length + (j * P + r) := by rw [hx]; ring
+      rw [this, List.getElem?_append_right (by omega)]
+      simp only [Nat.add_sub_cancel_left, List.getElem_cons_succ]
+      exact ih (fun y hy => hP y (List.mem_cons_of_mem _ hy)) j r (by simpa using hi) hr
+
+theorem blockCoords_lengths : ∀ (os ns : List Nat), os.length = ns.length →
+    (blockCoords os ns).map List.length = ns := by
+  intro os
+  induction os with
+  | nil => intro ns h; cases ns <;> simp_all [blockCoords]
+  | cons o os ih =>
+    intro ns h
+    cases ns with
+    | nil => simp at h
+    | cons n ns => simp [blockCoords, ih ns (by simpa using h)]
+
+theorem cartesian_block_getElem? : ∀ (os ns i : List Nat), os.length = ns.length → CoordIn i ns →
+    (cartesian (blockCoords os ns))[ravelN i ns]? = some (List.zipWith (· + ·) os i) := by
+  intro os
+  induction os with
+  | nil =>
+    intro ns i h hi
+    cases ns with
+    | nil => cases i <;> simp_all [CoordIn, blockCoords, cartesian, ravelN]
+    | cons n ns => simp at h
+  | cons o os ih =>
+    intro ns i h hi
+    cases ns with
+    | nil => simp at h
+    | cons n ns =>
+      cases i with
+      | nil => simp [CoordIn] at hi
+      | cons i0 is =>
+        obtain ⟨h0, hr⟩ := hi
+        have hlen : os.length = ns.length := by simpa using h
+        have hP : (cartesian (blockCoords os ns)).length = prodN ns := by
+          rw [cartesian_length, blockCoords_lengths os ns hlen]
+        simp only [blockCoords, cartesian, ravelN]
+        rw [flatMap_getElem?_uniform _ (prodN ns) _ (by intro x _; simp [hP]) i0 (ravelN is ns) (by simpa using h0)
+          (ravelN_lt is ns hr)]
+        simp [ih ns is hlen hr]
+
+theorem nodup_blockCoords : ∀ (os ns : List Nat), ∀ l ∈ blockCoords os ns, l.Nodup := by
+  intro os
+  induction os with
+  | nil => intro ns l h; simp [blockCoords] at h
+  | cons o os ih =>
+    intro ns l h
+    cases ns with
+    | nil => simp [blockCoords] at h
+    | cons n ns =>
+      simp only [blockCoords, List.mem_cons] at h
+      rcases h with rfl | h
+      · exact List.nodup_range.map (fun a b hab => by simpa using hab)
+      · exact ih ns l h
+
+/-- membership in the block, coordinate by coordinate -/
+theorem forall₂_blockCoords : ∀ (c os ns es : List Nat), BlockIn os ns es →
+    (List.Forall₂ (fun x l => x ∈ l) c (blockCoords os ns) ↔ (c.length = os.length ∧ inBlock c os ns = true)) := by
+  intro c
+  induction c with
+  | nil =>
+    intro os ns es hb
+    cases os <;> cases ns <;> cases es <;> simp_all [BlockIn, blockCoords, inBlock]
+  | cons x xs ih =>
+    intro os ns es hb
+    cases os with
+    | nil => cases ns <;> cases es <;> simp_all [BlockIn, blockCoords, inBlock]
+    | cons o os =>
+      cases ns with
+      | nil => simp [BlockIn] at hb
+      | cons n ns =>
+        cases es with
+        | nil => simp [BlockIn] at hb
+        | cons e es =>
+          obtain ⟨_, hb'⟩ := hb
+          simp only [blockCoords, List.forall₂_cons, ih os ns es hb', inBlock, List.length_cons, List.mem_map,
+            List.mem_range, Bool.and_eq_true, decide_eq_true_eq]
+          constructor
+          · rintro ⟨⟨k, hk, rfl⟩, h2, h3⟩
+            exact ⟨by omega, ⟨by omega, by omega⟩, h3⟩
+          · rintro ⟨h1, ⟨h2, h3⟩, h4⟩
+            exact ⟨⟨x - o, by omega, by omega⟩, by omega, h4⟩
+
+theorem coordIn_of_inBlock : ∀ (c os ns es : List Nat), BlockIn os ns es → inBlock c os ns = true → CoordIn c es := by
+  intro c
+  induction c with
+  | nil => intro os ns es hb h; cases os <;> cases ns <;> cases es <;> simp_all [BlockIn, inBlock, CoordIn]
+  | cons x xs ih =>
+    intro os ns es hb h
+    cases os with
+    | nil => simp [inBlock] at h
+    | cons o os =>
+      cases ns with
+      | nil => simp [inBlock] at h
+      | cons n ns =>
+        cases es with
+        | nil => simp [BlockIn] at hb
+        | cons e es =>
+          simp only [inBlock, Bool.and_eq_true, decide_eq_true_eq] at h
+          exact ⟨by have := hb.1; omega, ih os ns es hb.2 h.2⟩
+
+theorem sub_in_dims : ∀ (c os ns : List Nat), inBlock c os ns = true →
+    CoordIn (List.zipWith (· - ·) c os) ns ∧ List.zipWith (· + ·) os (List.zipWith (· - ·) c os) = c := by
+  intro c
+  induction c with
+  | nil => intro os ns h; cases os <;> cases ns <;> simp_all [inBlock, CoordIn]
+  | cons x xs ih =>
+    intro os ns h
+    cases os with
+    | nil => simp [inBlock] at h
+    | cons o os =>
+      cases ns with
+      | nil => simp [inBlock] at h
+      | cons n ns =>
+        simp only [inBlock, Bool.and_eq_true, decide_eq_true_eq] at h
+        obtain ⟨h1, h2⟩ := ih os ns h.2
+        simp only [List.zipWith_cons_cons, CoordIn, h2]
+        exact ⟨⟨by omega, h1⟩, by congr 1; omega⟩
+
+theorem dimCoords_one (l d : Nat) : dimCoords l 1 1 d = (List.range d).map (l + ·) := by
+  simp [dimCoords, List.range_one]
+
+theorem selCoords_block : ∀ (ln dn : List Nat), ln.length = dn.length →
+    (zip4 ln (List.replicate ln.length 1) (List.replicate ln.length 1) dn).map
+      (fun (p : Nat × Nat × Nat × Nat) => dimCoords p.1 p.2.1 p.2.2.1 p.2.2.2) = blockCoords ln dn := by
+  intro ln
+  induction ln with
+  | nil => intro dn h; cases dn <;> simp_all [zip4, blockCoords]
+  | cons l ls ih =>
+    intro dn h
+    cases dn with
+    | nil => simp at h
+    | cons d ds =>
+      simp only [List.length_cons, List.replicate_succ, zip4, List.map_cons, blockCoords, dimCoords_one]
+      rw [ih ds (by simpa using h)]
+
+theorem valid_block : ∀ (ln dn es : List Nat), BlockIn ln dn es → (∀ d ∈ dn, 1 ≤ d) →
+    (List.zip (zip4 ln (List.replicate ln.length 1) (List.replicate ln.length 1) dn) es).all
+      (fun (p : (Nat × Nat × Nat × Nat) × Nat) => dimWithin p.1.1 p.1.2.1 p.1.2.2.1 p.1.2.2.2 p.2) = true := by
+  intro ln
+  induction ln with
+  | nil => intro dn es h _; cases dn <;> cases es <;> simp_all [BlockIn, zip4]
+  | cons l ls ih =>
+    intro dn es h hp
+    cases dn with
+    | nil => simp [BlockIn] at h
+    | cons d ds =>
+      cases es with
+      | nil => simp [BlockIn] at h
+      | cons e es =>
+        have hd := hp d (by simp)
+        simp only [List.length_cons, List.replicate_succ, zip4, List.zip_cons_cons, List.all_cons, Bool.and_eq_true]
+        refine ⟨?_, ih ds es h.2 (fun x hx => hp x (List.mem_cons_of_mem _ hx))⟩
+        simp only [dimWithin, decide_eq_true_eq]
+        have := h.1
+        omega
+
+theorem blockIn_lengths : ∀ (ln dn es : List Nat), BlockIn ln dn es → ln.length = es.length ∧ dn.length = es.length := by
+  intro ln
+  induction ln with
+  | nil => intro dn es h; cases dn <;> cases es <;> simp_all [BlockIn]
+  | cons l ls ih =>
+    intro dn es h
+    cases dn with
+    | nil => simp [BlockIn] at h
+    | cons d ds =>
+      cases es with
+      | nil => simp [BlockIn] at h
+      | cons e es => have := ih ds es h.2; simp [this.1, this.2]
+
+/-- H5Dwrite of `vals` to the block `ln + [0, dn)` of a dataset `(s, v)` -/
+theorem h5write_block (s ln dn : List Nat) (v vals : List Int) (hb : BlockIn ln dn s) (hpos : ∀ d ∈ dn, 1 ≤ d)
+    (hv : v.length = prodN s) (hvals : vals.length = prodN dn) :
+    ∃ v', h5write v s (.hyper ln (List.replicate ln.length 1) (List.replicate ln.length 1) dn) (prodN dn) vals = .ok v' ∧
+      v'.length = v.length ∧
+      ∀ c, CoordIn c s → v'[ravelN c s]? =
+        if inBlock c ln dn = true then vals[ravelN (List.zipWith (· - ·) c ln) dn]? else v[ravelN c s]? := by
+  obtain ⟨hl1, hl2⟩ := blockIn_lengths ln dn s hb
+  have hlen : ln.length = dn.length := by omega
+  set idxs := (cartesian (blockCoords ln dn)).map (ravelN · s) with hidx
+  have hnp : npoints s (.hyper ln (List.replicate ln.length 1) (List.replicate ln.length 1) dn) = prodN dn := by
+    simp only [npoints]
+    congr 1
+    clear hidx idxs hvals hv hb hpos hl1 hl2
+    induction ln generalizing dn with
+    | nil => cases dn <;> simp_all
+    | cons l ls ih =>
+      cases dn with
+      | nil => simp at hlen
+      | cons d ds =>
+        simp only [List.length_cons, List.replicate_succ, List.zip_cons_cons, List.map_cons, Nat.one_mul]
+        rw [ih ds (by simpa using hlen)]
+  have hvalid : selValid s (.hyper ln (List.replicate ln.length 1) (List.replicate ln.length 1) dn) = true := by
+    simp only [selValid]; exact valid_block ln dn s hb hpos
+  have hlin : linear s (.hyper ln (List.replicate ln.length 1) (List.replicate ln.length 1) dn) = idxs := by
+    simp only [linear, selCoords, hidx]
+    rw [← selCoords_block ln dn hlen]
+  have hmem : ∀ c, c ∈ cartesian (blockCoords ln dn) ↔ (c.length = ln.length ∧ inBlock c ln dn = true) := by
+    intro c; rw [mem_cartesian, forall₂_blockCoords c ln dn s hb]
+  have hin : ∀ c ∈ cartesian (blockCoords ln dn), CoordIn c s := by
+    intro c hc; exact coordIn_of_inBlock c ln dn s hb ((hmem c).mp hc).2
+  have hnd : idxs.Nodup := by
+    apply List.Nodup.map_on _ (nodup_cartesian _ (nodup_blockCoords ln dn))
+    intro c1 h1 c2 h2 heq
+    exact ravelN_inj c1 c2 s (hin c1 h1) (hin c2 h2) heq
+  have hil : idxs.length = prodN dn := by
+    simp only [hidx, List.length_map, cartesian_length, blockCoords_lengths ln dn hlen]
+  have hib : ∀ i ∈ idxs, i < v.length := by
+    intro i hi
+    obtain ⟨c, hc, rfl⟩ := List.mem_map.mp hi
+    rw [hv]; exact ravelN_lt c s (hin c hc)
+  refine ⟨scatter v idxs vals, ?_, scatter_length _ _ _, ?_⟩
+  · simp only [h5write, hnp, ne_eq, not_true_eq_false, if_false, hvalid, hlin]
+  · intro c hc
+    by_cases hbk : inBlock c ln dn = true
+    · simp only [hbk, if_true]
+      obtain ⟨hsub, hadd⟩ := sub_in_dims c ln dn hbk
+      have hk := ravelN_lt _ _ hsub
+      have hget := cartesian_block_getElem? ln dn _ hlen hsub
+      rw [hadd] at hget
+      have hk' : ravelN (List.zipWith (· - ·) c ln) dn < idxs.length := by rw [hil]; exact hk
+      have hidk : idxs[ravelN (List.zipWith (· - ·) c ln) dn] = ravelN c s := by
+        have : idxs[ravelN (List.zipWith (· - ·) c ln) dn]? = some (ravelN c s) := by
+          simp only [hidx, List.getElem?_map, hget, Option.map_some]
+        rw [List.getElem?_eq_getElem hk'] at this
+        exact Option.some.inj this
+      have := scatter_getElem?_mem v idxs vals hnd (by omega) hib _ hk'
+      rw [hidk] at this
+      exact this
+    · simp only [hbk, Bool.false_eq_true, if_false]
+      apply scatter_getElem?_not_mem
+      intro hmem'
+      obtain ⟨c', hc', heq⟩ := List.mem_map.mp hmem'
+      have : c' = c := ravelN_inj c' c s (hin c' hc') hc heq
+      subst this
+      exact hbk ((hmem c').mp hc').2
+
+theorem zip4_replicate_mem : ∀ (n : Nat) (ln dn : List Nat) (x : Nat × Nat × Nat × Nat),
+    x ∈ zip4 ln (List.replicate n 1) (List.replicate n 1) dn → x.2.1 = 1 ∧ x.2.2.1 = 1 := by
+  intro n
+  induction n with
+  | zero => intro ln dn x hx; cases ln <;> simp [zip4] at hx
+  | succ n ih =>
+    intro ln dn x hx
+    cases ln with
+    | nil => simp [zip4] at hx
+    | cons l ls =>
+      cases dn with
+      | nil => simp [List.replicate_succ, zip4] at hx
+      | cons d ds =>
+        simp only [List.replicate_succ, zip4, List.mem_cons] at hx
+        rcases hx with rfl | hx
+        · exact ⟨rfl, rfl⟩
+        · exact ih ls ds x hx
 
 end OW.Proofs.C08H5
